@@ -14,6 +14,8 @@ A *case* is a small program: a list of functions, fns[0] is the root.  Function 
   ["show", up, var]            println("V", code(var), var)
   ["if", cond, [then], [else]] if <cond> { } else { }      (cond: 0/1, read from a package-level variable)
   ["for", n, [body]]           for i := 0; i < n; i++ { }  (n read through a package-level variable)
+  ["rfor", n, [body]]          for v := range seq(n) { }   range-over-func: the body becomes a synthetic yield closure; its
+                               defers go to the enclosing function's defer stack (Builder.DeferTo)
 
 In the flattened events an extra `e` marks the end of the function's entry block (first if/for reached).
 
@@ -64,6 +66,7 @@ def render_case(R, ci, case):
     gids = [base + i for i in range(len(fns))]
     case["_gids"] = gids
     case["_dline"] = {}     # id(stmt) is not stable through json; use path tuples
+    case["_fline"] = {}     # fn index -> source line of the function (declaration / func literal)
     loopctr = [0]
 
     def params(f):
@@ -83,6 +86,7 @@ def render_case(R, ci, case):
                 case["_dline"][(f,) + p] = R.line_no()
                 if fns[callee]["kind"] == "clo":
                     cg = gids[callee]
+                    case["_fline"][callee] = R.line_no()
                     R.emit("%sdefer func(%s) (r%d int) {" % (t, params(callee), cg))
                     prologue(callee, ind + 1)
                     body(callee, fns[callee]["body"], ind + 1, [], (), f)
@@ -130,6 +134,13 @@ def render_case(R, ci, case):
                 R.emit("%sfor %s := 0; %s < zero+%d; %s++ {" % (t, lv, lv, s[1], lv))
                 body(f, s[2], ind + 1, loopvars + [lv], p + (0,), parent)
                 R.emit("%s}" % t)
+            elif k == "rfor":
+                loopctr[0] += 1
+                lv = "v%d_%d" % (g, loopctr[0])
+                R.emit("%sfor %s := range seq(zero + %d) {" % (t, lv, s[1]))
+                R.emit("%s\t_ = %s" % (t, lv))
+                body(f, s[2], ind + 1, loopvars + [lv], p + (0,), parent)
+                R.emit("%s}" % t)
             else:
                 raise ValueError(s)
 
@@ -144,6 +155,7 @@ def render_case(R, ci, case):
     for f, fn in enumerate(fns):
         if fn["kind"] != "plain":
             continue
+        case["_fline"][f] = R.line_no()
         R.emit("func F%d(%s) (r%d int) {" % (gids[f], params(f), gids[f]))
         prologue(f, 1)
         body(f, fn["body"], 1, [], (), None)
@@ -207,6 +219,16 @@ def render_program(cases):
     R.emit("var nilmap map[int]int")
     R.emit("var sink int")
     R.emit("")
+    R.emit("func seq(n int) func(func(int) bool) {")
+    R.emit("\treturn func(yield func(int) bool) {")
+    R.emit("\t\tfor i := 0; i < n; i++ {")
+    R.emit("\t\t\tif !yield(i) {")
+    R.emit("\t\t\t\treturn")
+    R.emit("\t\t\t}")
+    R.emit("\t\t}")
+    R.emit("\t}")
+    R.emit("}")
+    R.emit("")
     R.emit("func prt(r any) {")
     R.emit("\tif v, ok := r.(int); ok {")
     R.emit('\t\tprintln("R", v)')
@@ -248,29 +270,80 @@ def defer_paths(fns, f):
             elif s[0] == "if":
                 walk(s[2], p + (0,))
                 walk(s[3], p + (1,))
-            elif s[0] == "for":
+            elif s[0] in ("for", "rfor"):
                 walk(s[2], p + (0,))
     walk(fns[f]["body"], ())
     return out
 
 
+def parse_facts(text):
+    """output of the kinds harness -> {"D": {line: (order, kind, clo, nargs, dom, cyc)}, "X": {line: (ownerline, clo, nargs)},
+    "S": {fnline: [order...]}, "K": {fnline}}"""
+    facts = {"D": {}, "X": {}, "S": {}, "K": set()}
+    for ln in text.split("\n"):
+        f = ln.split()
+        if not f:
+            continue
+        if f[0] == "D" and len(f) == 9:
+            facts["D"][int(f[3])] = (int(f[2]), f[4], int(f[5]), int(f[6]), int(f[7]), int(f[8]))
+        elif f[0] == "X" and len(f) == 5:
+            facts["X"][int(f[2])] = (int(f[1]), int(f[3]), int(f[4]))
+        elif f[0] == "S" and len(f) == 3:
+            facts["S"].setdefault(int(f[1]), []).append(int(f[2]))
+        elif f[0] == "K" and len(f) == 2:
+            facts["K"].add(int(f[1]))
+    return facts
+
+
 def layouts(case, facts):
-    """facts: {line: (order, kind, clo, nargs)} from the kinds harness (real cl/blocks + go/ssa).
-    -> ({fn: [stmt dict in compile order]}, {(fn,)+path: k}, problems)"""
+    """facts from the kinds harness (real cl/blocks + go/ssa), see parse_facts.
+    -> ({fn: [stmt dict in layout order]}, {(fn,)+path: k}, {fn: entryFrame}, problems, kind_mismatches)
+
+    A function that still evaluates ssa:deferstack() (K) is the OWNER of range-over-func defers: go/ssa gives every defer
+    of it an explicit defer stack, llgo compiles all of them with DeferTo (loop cases of the owner, `x` entries) and the
+    only replay statements are the drain points after the range-over-func calls (S; in the layout: loop statements that
+    never execute). Otherwise the layout is the list of defer statements in compile order."""
     fns = case["fns"]
-    lay, index, problems = {}, {}, []
+    lay, index, entry, problems, mism = {}, {}, {}, [], []
     for f in range(len(fns)):
         ds = defer_paths(fns, f)
+        fl = case["_fline"].get(f)
+        entry[f] = 1 if fl in facts["K"] else 0
+        if entry[f]:
+            slots = sorted(facts["S"].get(fl, []))
+            if slots != list(range(len(slots))):
+                problems.append("drain points of fn %d are not 0..n-1: %s" % (f, slots))
+            lay[f] = [{"kind": "loop", "clo": 0, "nargs": 0, "fn": 0} for _ in slots]
+            for (p, s) in ds:
+                line = case["_dline"].get((f,) + p)
+                fact = facts["X"].get(line)
+                if fact is None:
+                    problems.append("defer at line %s of an owner function not reported as explicit-stack defer" % line)
+                    continue
+                ownerline, clo, nargs = fact
+                if ownerline != fl:
+                    problems.append("defer at line %s: owner line %s != %s" % (line, ownerline, fl))
+                if nargs != len(s[2]):
+                    problems.append("nargs mismatch at line %s" % line)
+                index[(f,) + p] = len(lay[f])
+                lay[f].append({"kind": "x", "clo": clo, "nargs": nargs, "fn": s[1]})
+            continue
         rows = []
         for (p, s) in ds:
             line = case["_dline"].get((f,) + p)
-            fact = facts.get(line)
+            fact = facts["D"].get(line)
             if fact is None:
                 problems.append("defer at line %s not reported by the kinds harness (unreachable?)" % line)
                 continue
-            order, kind, clo, nargs = fact
+            order, kind, clo, nargs, dom, cyc = fact
             if nargs != len(s[2]):
                 problems.append("nargs mismatch at line %s" % line)
+            # the classification against its definition: `loop` <=> the block lies on a cycle; `always` only for a block
+            # that is passed on every path to every function end (return or explicit panic)
+            if (kind == "loop") != (cyc == 1):
+                mism.append({"line": line, "kind": kind, "on_cycle": cyc, "why": "loop-kind-iff-block-on-cycle"})
+            elif kind == "always" and dom != 1:
+                mism.append({"line": line, "kind": kind, "dominates_all_ends": dom, "why": "always-kind-block-does-not-dominate-every-function-end"})
             rows.append((order, kind, clo, nargs, s[1], (f,) + p))
         rows.sort()
         if [r[0] for r in rows] != list(range(len(rows))):
@@ -278,7 +351,7 @@ def layouts(case, facts):
         lay[f] = [{"kind": r[1], "clo": r[2], "nargs": r[3], "fn": r[4]} for r in rows]
         for k, r in enumerate(rows):
             index[r[5]] = k
-    return lay, index, problems
+    return lay, index, entry, problems, mism
 
 
 def has_up_r(fns, c):
@@ -291,14 +364,44 @@ def has_up_r(fns, c):
                 return True
             if s[0] == "if" and (walk(s[2]) or walk(s[3])):
                 return True
-            if s[0] == "for" and walk(s[2]):
+            if s[0] in ("for", "rfor") and walk(s[2]):
                 return True
         return False
     return walk(fns[c]["body"])
 
 
+def own_r_in_yield(fns, f):
+    """does a range-over-func body of f mention f's named result (then the yield closure captures it)"""
+    def mentions(stmts):
+        for s in stmts:
+            if s[0] in ("set", "add", "show") and not s[1] and s[2] == "r":
+                return True
+            if s[0] in ("set", "add") and not s[1] and s[3] == ["r"]:
+                return True
+            if s[0] in ("defer", "call") and ["r"] in s[2]:
+                return True
+            if s[0] == "panic" and s[1] == ["r"]:
+                return True
+            if s[0] == "if" and (mentions(s[2]) or mentions(s[3])):
+                return True
+            if s[0] in ("for", "rfor") and mentions(s[2]):
+                return True
+        return False
+
+    def walk(stmts):
+        for s in stmts:
+            if s[0] == "rfor" and mentions(s[2]):
+                return True
+            if s[0] == "if" and (walk(s[2]) or walk(s[3])):
+                return True
+            if s[0] == "for" and walk(s[2]):
+                return True
+        return False
+    return walk(fns[f]["body"])
+
+
 def cap_r(fns, f):
-    return any(fns[s[1]]["kind"] == "clo" and has_up_r(fns, s[1]) for (_, s) in defer_paths(fns, f))
+    return own_r_in_yield(fns, f) or any(fns[s[1]]["kind"] == "clo" and has_up_r(fns, s[1]) for (_, s) in defer_paths(fns, f))
 
 
 # ----------------------------------------------------------------------------------------------- flatten + encode
@@ -328,11 +431,11 @@ def flatten(case, f, index):
 
     entry_end = [False]
 
-    def walk(stmts, path, loopvals):
+    def walk(stmts, path, loopvals, in_yield=False):
         for si, s in enumerate(stmts):
             p = path + (si,)
             k = s[0]
-            if k in ("if", "for") and not entry_end[0]:
+            if k in ("if", "for") and not entry_end[0] and not in_yield:
                 # the first branching statement ends the entry block: `getDefer` places `initDeferState` here
                 # (deferInitBuilder appends to the END of block 0) unless the first compiled defer is DeferAlways
                 entry_end[0] = True
@@ -362,10 +465,18 @@ def flatten(case, f, index):
             elif k == "show":
                 ev.append("w.%d.%s" % (1 if s[1] else 0, s[2]))
             elif k == "if":
-                walk(s[2] if s[1] else s[3], p + (0 if s[1] else 1,), loopvals)
+                walk(s[2] if s[1] else s[3], p + (0 if s[1] else 1,), loopvals, in_yield)
             elif k == "for":
                 for i in range(s[1]):
-                    walk(s[2], p + (0,), loopvals + [i])
+                    walk(s[2], p + (0,), loopvals + [i], in_yield)
+            elif k == "rfor":
+                # the body runs inside the call of the iterator (still in the caller's block); the checks of the exit
+                # state that follow the call end the block
+                for i in range(s[1]):
+                    walk(s[2], p + (0,), loopvals + [i], True)
+                if not entry_end[0] and not in_yield:
+                    entry_end[0] = True
+                    ev.append("e")
             else:
                 raise ValueError(s)
     try:
@@ -375,12 +486,12 @@ def flatten(case, f, index):
     return ev
 
 
-def encode(case, lay, index):
+def encode(case, lay, index, entry=None):
     fns = case["fns"]
     out = []
     for f in range(len(fns)):
         ss = ",".join("%s.%d.%d.%d" % (s["kind"][0], s["clo"], s["nargs"], s["fn"]) for s in lay[f])
-        out.append("%d;%s;%s" % (1 if cap_r(fns, f) else 0, ss, ",".join(flatten(case, f, index))))
+        out.append("%d%d;%s;%s" % (1 if cap_r(fns, f) else 0, (entry or {}).get(f, 0), ss, ",".join(flatten(case, f, index))))
     return "|".join(out)
 
 
@@ -482,8 +593,21 @@ def gen_case(rng, name=""):
                     out.append(["defer", d, a])
                 elif left[0] > 0 and c < 0.62 and not in_loop:
                     out.append(["if", rng.randint(0, 1) if rng.random() < 0.8 else 1, block(rng.randint(1, 2), False, False), block(rng.randint(0, 1), False, False) if rng.random() < 0.3 else []])
-                elif left[0] > 0 and c < 0.78 and not in_loop:
+                elif left[0] > 0 and c < 0.74 and not in_loop:
                     out.append(["for", rng.randint(0, 3), block(rng.randint(1, 2), True, False)])
+                elif left[0] > 0 and c < 0.82 and not in_loop:
+                    # range-over-func body: its defers go to this function's defer stack
+                    rb = []
+                    for _ in range(rng.randint(1, 2)):
+                        if left[0] > 0:
+                            left[0] -= 1
+                            d, a = gen_deferred(f, depth + 1, True)
+                            rb.append(["defer", d, a])
+                        if rng.random() < 0.4:
+                            rb.append(rng.choice([["mark", rng.randint(70, 79)], ["add", 0, "x", ["lit", 1]], ["add", 0, "r", ["lit", 1]]]))
+                    if rng.random() < 0.2:
+                        rb.append(["if", rng.randint(0, 1), [rng.choice([["fault", "idx"], ["panic", ["lit", rng.randint(1, 9)]]])], []])
+                    out.append(["rfor", rng.randint(0, 3), rb])
                 else:
                     s = action(in_loop, top)
                     out.append(s)
@@ -531,6 +655,75 @@ def enum_cases(max_stmts=3):
                     body.append(["fault", "idx"])
                 fns[2]["body"] = body
                 out.append({"name": "enum-%s-%s" % ("".join("%s%d." % x for x in st), fault_at), "fns": fns})
+    return out
+
+
+def _root3(body_fn, extra):
+    """recovering root + the function under test (index 2) + its callees"""
+    return [{"kind": "plain", "nparams": 0, "body": [["defer", 1, []], ["call", 2, []], ["mark", 1]]},
+            {"kind": "plain", "nparams": 0, "body": [["recover"]]},
+            {"kind": "plain", "nparams": 0, "body": body_fn}] + extra
+
+
+def enum_rangefunc(max_items=3):
+    """Owner functions of range-over-func defers: sequences of own defers, ordinary loop defers and range-over-func loops
+    that defer (one or two sites, plain or closure callee), every defer site with its OWN callee so that a mis-dispatched
+    loop case is visible; with and without a run-time fault at the end."""
+    import itertools
+    items = ["own0", "own1", "loop", "rf1", "rf2", "rfc", "rf0"]
+    out = []
+    for n in range(2, max_items + 1):
+        for combo in itertools.product(items, repeat=n):
+            if not any(c.startswith("rf") for c in combo):
+                continue
+            for fault in (0, 1):
+                extra, body = [], []
+
+                def callee(kind, nparams, b=None):
+                    extra.append({"kind": kind, "nparams": nparams, "body": b or []})
+                    return 2 + len(extra)
+                for j, it in enumerate(combo):
+                    if it == "own0":
+                        body.append(["defer", callee("plain", 0), []])
+                    elif it == "own1":
+                        body.append(["defer", callee("plain", 1), [["lit", 40 + j]]])
+                    elif it == "loop":
+                        body.append(["for", 2, [["defer", callee("plain", 1), [["i"]]]]])
+                    elif it == "rf1":
+                        body.append(["rfor", 2, [["defer", callee("plain", 1), [["i"]]]]])
+                    elif it == "rf2":
+                        body.append(["rfor", 2, [["defer", callee("plain", 1), [["i"]]], ["mark", 70 + j], ["defer", callee("plain", 2), [["i"], ["lit", 5]]]]])
+                    elif it == "rfc":
+                        body.append(["rfor", 2, [["add", 0, "x", ["lit", 1]], ["defer", callee("clo", 1, [["show", 1, "x"]]), [["i"]]]]])
+                    elif it == "rf0":
+                        body.append(["rfor", 0, [["defer", callee("plain", 1), [["i"]]]]])
+                if fault:
+                    body.append(["fault", "idx"])
+                out.append({"name": "rf-%s-%d" % (".".join(combo), fault), "fns": _root3(body, extra)})
+    return out
+
+
+def enum_panic_branch():
+    """Straight-line code with a conditional explicit panic / run-time fault / early return between defer statements:
+    `defer D1(..); if bad { panic(..) }; mark; defer D2(..); return` — with an explicit panic (or return) in the branch the
+    last block is NOT the function's only end, so D2 must not be of kind `always`; branch taken and not taken."""
+    out = []
+    shapes = {"p0": ("plain", 0, []), "p1": ("plain", 1, []), "clo": ("clo", 0, [["show", 1, "x"]])}
+    for d1 in shapes:
+        for d2 in shapes:
+            for br in ("panic", "fault", "ret"):
+                for taken in (0, 1):
+                    extra = []
+
+                    def mk(sh):
+                        k, n, b = shapes[sh]
+                        extra.append({"kind": k, "nparams": n, "body": list(b)})
+                        return 2 + len(extra), [["lit", 7 + len(extra)]] * n
+                    c1, a1 = mk(d1)
+                    c2, a2 = mk(d2)
+                    inner = {"panic": ["panic", ["lit", 5]], "fault": ["fault", "map"], "ret": ["ret"]}[br]
+                    body = [["set", 0, "x", ["lit", 3]], ["defer", c1, a1], ["if", taken, [inner], []], ["mark", 2], ["defer", c2, a2], ["mark", 3]]
+                    out.append({"name": "pb-%s-%s-%s-%d" % (d1, d2, br, taken), "fns": _root3(body, extra)})
     return out
 
 
